@@ -17,7 +17,8 @@ LEVEL_TEXT = ('Static decision of the structural necessary conditions: every eva
               'higher index, or same index and smaller value"; the result is published on every path; the recorded '
               'value is the holder the objective wrote for the same item and slot; holders are owned per item; '
               'only the evaluation routine and the (coherent) local refinement write trial fields; the point object of '
-              'every search item is allocated by the library for that item (never a caller-supplied or shared object).')
+              'every search item is allocated by the library for that item (never a caller-supplied or shared object); outside constructors only the optimum updater '
+              'stores into the best-trial slot of the Solution.')
 EXPLANATION = ('Event traces of the iteration driver (seeding routine inlined) pair EVAL(p) with UPDATE_OPT(p); the '
                'optimum updater is checked path by path against the truth table of the three-way predicate over '
                'all worlds compatible with the path guards; wiring of point/holder/slot through the task wrapper '
